@@ -67,9 +67,9 @@ SpecLen(p) ==
       [] p.k \in {"RR", "RNR", "DM"} -> 3
       [] p.k = "FRMR"    -> 6
       [] p.k \in {"DISC", "SYMM"} -> 2
-      [] p.k = "CONNECT" -> 2 + (IF p.miu > 128 THEN 4 ELSE 0) + (IF p.rw > 1 THEN 3 ELSE 0)
+      [] p.k = "CONNECT" -> 2 + (IF p.miu > 128 THEN 4 ELSE 0) + (IF p.rw # 1 THEN 3 ELSE 0)
                               + (IF p.sn > 0 THEN 2 + p.sn ELSE 0)
-      [] p.k = "CC"      -> 2 + (IF p.miu > 128 THEN 4 ELSE 0) + (IF p.rw > 1 THEN 3 ELSE 0)
+      [] p.k = "CC"      -> 2 + (IF p.miu > 128 THEN 4 ELSE 0) + (IF p.rw # 1 THEN 3 ELSE 0)
       [] p.k = "SNL"     -> 2 + 4 * p.res + SumSeq([i \in DOMAIN p.req |-> 3 + p.req[i]])
       [] OTHER           -> 2 + p.n
 Fix(p) == [p EXCEPT !.h = Hdr(p.k), !.dl = SpecLen(p), !.el = SpecLen(p)]
